@@ -61,6 +61,7 @@ OPS = st.one_of(
     st.tuples(st.just('flush'), st.just(0)), st.tuples(st.just('flush'), st.just(0)),
     st.tuples(st.just('reopen'), st.just(0)),
     st.tuples(st.just('pickle'), st.just(0)),
+    st.tuples(st.just('read'), st.integers(0, 20)),       # a read re-creates the memmap without flushing the header
 )
 
 
@@ -147,6 +148,12 @@ class Driver(object):
                 for key in self.spec:                      # pools never overwrite through add_batch: use the store
                     self.pool.stores[key][i] = self.batch(key, k)
             return ('overwrite', i, k)
+        if op == 'read':
+            if model_len == 0:
+                return None
+            for store in self.stores().values():
+                np.array(store[arg % model_len])
+            return None
         if op == 'del-last':
             if model_len == 0:
                 return None
@@ -336,6 +343,8 @@ def run_crash(case):
                 eff = ('pop',) if cur else None
             elif op == 'clear':
                 eff = ('clear',)
+            elif op == 'read':
+                eff = None
             else:
                 eff = ('flush',)
             states.append(step_model(cur, eff))
@@ -417,7 +426,7 @@ def run_crash(case):
 
 CHECK = Check(
     P, 'fault_enumeration',
-    rule=('histories: Hypothesis-generated operation lists (<= 14 ops: append, overwrite batch i, delete last, clear, flush, close+reopen, '
+    rule=('histories: Hypothesis-generated operation lists (<= 14 ops: append, overwrite batch i, read batch i, delete last, clear, flush, close+reopen, '
           'pickle round-trip / pool save) over an initialised NpyStore or a two-store ArrayPool, dtypes f8 f4 i8 i4 u1 bool c16, row shapes '
           '() (3,) (2,2), batch sizes 1-4, C / Fortran / strided input arrays; non-trivial = an append after a truncation or a reopen with '
           'unflushed rows. crash: for each generated history EVERY kill point (before and after each low-level write, truncate, flush, seek, '
